@@ -197,7 +197,8 @@ def run_shard(ctx):
                     return True
                 pth = os.path.join(ws, *k)
                 if follow and agreed and os.path.islink(pth):
-                    rel = os.path.relpath(os.path.realpath(pth), os.path.realpath(ws))
+                    # (one level: the name it points at may by now be a link into the cache itself)
+                    rel = os.path.relpath(os.path.normpath(os.path.join(os.path.dirname(pth), os.readlink(pth))), ws)
                     return not rel.startswith("..") and agreed_to(tuple(rel.split(os.sep)), follow=False)
                 return False
 
@@ -244,6 +245,7 @@ def run_shard(ctx):
                     res.count("prompt_errors")
                 except (CheckoutError, LinkError) as e:
                     outcome = type(e).__name__
+                    cfg["exception"] = repr(getattr(e, "paths", e))[:300]
                 except IgnoreInCollectedDirError as e:
                     if stray is None:
                         raise
@@ -312,7 +314,7 @@ def run_shard(ctx):
             # "modified since recorded" in the sense the clean-up can see: the set of files or one of their mtimes changed
             # (judged on the view the clean-up will actually see: a stray file removed for the second attempt no longer counts)
             edited = start != "empty" and os.path.isdir(ws) and recorded_view != {} and pre_view != recorded_view and mtimes_of(ws) != recorded_view
-            if state is not None and not lost and not outcome.startswith("returned") and edited and not dangling and rng.random() < 0.8:
+            if state is not None and not lost and not outcome.startswith("returned") and edited and not dangling and not agreed and rng.random() < 0.8:
                 # the checkout was refused / failed: it must not have recorded the user's edited workspace as its own link
                 res.count("cleanups_after_checkout")
                 mid = walk_files(ws)
@@ -323,7 +325,7 @@ def run_shard(ctx):
                     if v is not None and end.get(k) != v and H("md5", v) not in intact:
                         res.violation(f"uncached-user-file-removed-by-link-cleanup/after-{outcome}",
                                       f"{'/'.join(k)} holds bytes that are not in the cache; link clean-up after the checkout ({outcome}) removed it",
-                                      case=case, detail={**cfg, "unused": list(unused)[:4]})
+                                      case=case, detail={**cfg, "unused": list(unused)[:4], "asked": calls[:4], "before": sorted("/".join(k_) for k_ in before), "mid": sorted("/".join(k_) for k_ in mid)})
                         break
             if state is not None:
                 state.close()
